@@ -54,6 +54,7 @@ class Sched:
         self.ops = collections.Counter()
         self.caller_took = []
         self.pos_at_first_spawn = None
+        self.proc_actor = {}
 
     # ---- actors
     def actor(self):
@@ -72,11 +73,19 @@ class Sched:
             self.stall = 0
             self.stuck = False
 
+    def is_alive(self, proc):
+        """a "process" is alive from start() until its run() has returned (read by the caller while every
+        other actor is parked or finished, hence a function of the schedule)"""
+        with self.cv:
+            idx = self.proc_actor.get(id(proc))
+            return idx is not None and idx in self.parked
+
     def spawn(self, proc):
         with self.cv:
             idx = len(self.order)
             self.order.append(idx)
             self.parked[idx] = False
+            self.proc_actor[id(proc)] = idx
             if self.pos_at_first_spawn is None:
                 self.pos_at_first_spawn = self.pos
         t = threading.Thread(target=self._run_worker, args=(proc, idx), daemon=True, name=f"afw{idx}")
@@ -273,7 +282,7 @@ def fake_multiprocessing(sched):
     multiprocessing.Queue = lambda *a, **k: FakeQueue(sched)
     multiprocessing.Process.start = start
     multiprocessing.Process.join = join
-    multiprocessing.Process.is_alive = lambda self: True
+    multiprocessing.Process.is_alive = lambda self: sched.is_alive(self)
     try:
         yield
     finally:
